@@ -53,8 +53,11 @@ func C07_Cancel() {
 	if Tier() > 0 {
 		K, D = 60, 2
 	}
-	// mode: 0 = cancelled before the run starts, 1 = at poll k, 2 = never
-	mode := vf.Choice("mode", 3)
+	// mode: 0 = cancelled before the run starts, 1 = at poll k, 2 = never,
+	// 3 = cancelled by the script's own last statement (a host function), i.e.
+	// at the instant the run finishes: both the result and the cancellation
+	// are pending when RunContext looks
+	mode := vf.Choice("mode", 4)
 	k := 0
 	if mode == 1 {
 		k = vf.Choice("k", K)
@@ -66,6 +69,9 @@ func C07_Cancel() {
 	if mode == 2 && runForever {
 		vf.Stop() // an uncancelled infinite program never returns: not a property of cancellation
 	}
+	if mode == 3 && runForever {
+		vf.Stop() // the last statement of an infinite program is never reached
+	}
 	lim := int64(3)
 	if runForever {
 		lim = -1
@@ -73,70 +79,95 @@ func C07_Cancel() {
 	lim2 := vf.Int64("lim2")
 	vf.Assume(lim2 >= 0)
 	vf.Assume(lim2 <= 2)
-	s := tengo.NewScript([]byte(p.src))
-	_ = s.Add("lim", lim)
-	c, err := s.Compile()
-	vf.Assert(err == nil, "cancellation program compiles: "+p.name)
+	round := func() {
+		src := p.src
+		if mode == 3 {
+			src += "; fin()"
+		}
+		s := tengo.NewScript([]byte(src))
+		_ = s.Add("lim", lim)
+		var finish func()
+		_ = s.Add("fin", &tengo.UserFunction{Name: "fin", Value: func(args ...tengo.Object) (tengo.Object, error) {
+			finish()
+			return tengo.UndefinedValue, nil
+		}})
+		c, err := s.Compile()
+		vf.Assert(err == nil, "cancellation program compiles: "+p.name)
 
-	ctx := &hctx{done: make(chan struct{})}
-	polls, cancelled, handoffAt := 0, false, -1
-	sawAbort, pollsAfterAbort := false, 0
-	cancel := func() {
-		ctx.err = errCancelled
-		cancelled = true
-		close(ctx.done)
-	}
-	vf.SetHook("poll", func() {
-		if sawAbort {
-			pollsAfterAbort++
+		ctx := &hctx{done: make(chan struct{})}
+		polls, cancelled, handoffAt := 0, false, -1
+		sawAbort, pollsAfterAbort := false, 0
+		cancel := func() {
+			ctx.err = errCancelled
+			cancelled = true
+			close(ctx.done)
 		}
-		if vf.PollValue() != 0 {
-			sawAbort = true
+		vf.SetHook("poll", func() {
+			if sawAbort {
+				pollsAfterAbort++
+			}
+			if vf.PollValue() != 0 {
+				sawAbort = true
+			}
+			if mode == 1 && polls == k && !cancelled {
+				handoffAt = polls + d
+				cancel()
+			}
+			if cancelled && polls == handoffAt {
+				vf.Handoff()
+			}
+			polls++
+		})
+		finish = func() {
+			if mode == 3 && !cancelled {
+				cancel()
+			}
 		}
-		if mode == 1 && polls == k && !cancelled {
-			handoffAt = polls + d
+		if mode == 0 {
 			cancel()
+			handoffAt = d
 		}
-		if cancelled && polls == handoffAt {
-			vf.Handoff()
+		if mode == 1 && !vf.Symbolic() {
+			// native replay: the poll hook does not exist; cancel from a real goroutine
+			go func() {
+				time.Sleep(time.Duration(k+1) * 200 * time.Microsecond)
+				cancel()
+			}()
 		}
-		polls++
-	})
-	if mode == 0 {
-		cancel()
-		handoffAt = d
+		var rerr error
+		res := vf.Guard(func() { rerr = c.RunContext(ctx) }, 3000000)
+		vf.SetHook("poll", nil)
+		vf.Assert(res == 0, "RunContext returns after cancellation within the bound (no hang, no panic): "+p.name+": "+vf.LastGuard())
+		vf.Assert(pollsAfterAbort == 0, "the VM dispatches no instruction after it observed the abort flag: "+p.name)
+		vf.Assert(vf.Goroutines() == 0, "no goroutine is left behind when RunContext returns: "+p.name)
+		own := rerr == nil
+		if cancelled && runForever {
+			vf.Assert(rerr == errCancelled, "a cancelled run that could not finish returns the context's error: "+p.name)
+		} else if cancelled {
+			vf.Assert(rerr == errCancelled || own, "a cancelled run returns the context's error, or its own result if it had finished: "+p.name)
+		} else {
+			vf.Assert(own, "an uncancelled run returns its own result: "+p.name)
+		}
+		if own && !cancelled {
+			vf.Assert(c.Get("out").Int64() == p.result(lim), "uncancelled run computes its result: "+p.name)
+		}
+		// the compiled object can be run again with correct results
+		_ = c.Set("lim", lim2)
+		var rerr2 error
+		res = vf.Guard(func() { rerr2 = c.RunContext(liveCtx()) }, 3000000)
+		vf.Assert(res == 0 && rerr2 == nil, "the compiled object can be run again after a cancelled run: "+p.name+": "+vf.LastGuard())
+		vf.Assert(c.Get("out").Int64() == p.result(lim2), "the second run computes correct results: "+p.name)
+		vf.Assert(vf.Goroutines() == 0, "no goroutine left after the second run: "+p.name)
 	}
-	if mode == 1 && !vf.Symbolic() {
-		// native replay: the poll hook does not exist; cancel from a real goroutine
-		go func() {
-			time.Sleep(time.Duration(k+1) * 200 * time.Microsecond)
-			cancel()
-		}()
-	}
-	var rerr error
-	res := vf.Guard(func() { rerr = c.RunContext(ctx) }, 3000000)
-	vf.SetHook("poll", nil)
-	vf.Assert(res == 0, "RunContext returns after cancellation within the bound (no hang, no panic): "+p.name+": "+vf.LastGuard())
-	vf.Assert(pollsAfterAbort == 0, "the VM dispatches no instruction after it observed the abort flag: "+p.name)
-	vf.Assert(vf.Goroutines() == 0, "no goroutine is left behind when RunContext returns: "+p.name)
-	own := rerr == nil
-	if cancelled && runForever {
-		vf.Assert(rerr == errCancelled, "a cancelled run that could not finish returns the context's error: "+p.name)
-	} else if cancelled {
-		vf.Assert(rerr == errCancelled || own, "a cancelled run returns the context's error, or its own result if it had finished: "+p.name)
+	if mode == 3 && !vf.Symbolic() {
+		// natively which of the two pending events RunContext sees first is up
+		// to the Go scheduler: repeat the scenario
+		for r := 0; r < 60; r++ {
+			round()
+		}
 	} else {
-		vf.Assert(own, "an uncancelled run returns its own result: "+p.name)
+		round()
 	}
-	if own && !cancelled {
-		vf.Assert(c.Get("out").Int64() == p.result(lim), "uncancelled run computes its result: "+p.name)
-	}
-	// the compiled object can be run again with correct results
-	_ = c.Set("lim", lim2)
-	var rerr2 error
-	res = vf.Guard(func() { rerr2 = c.RunContext(liveCtx()) }, 3000000)
-	vf.Assert(res == 0 && rerr2 == nil, "the compiled object can be run again after a cancelled run: "+p.name+": "+vf.LastGuard())
-	vf.Assert(c.Get("out").Int64() == p.result(lim2), "the second run computes correct results: "+p.name)
-	vf.Assert(vf.Goroutines() == 0, "no goroutine left after the second run: "+p.name)
 	vf.Reach("cancel")
 }
 
